@@ -278,7 +278,9 @@ func EncodeLZMA2(specs []ChunkSpec, dictSize uint32) (stream, plain []byte, err 
 				}
 			} else {
 				if m == nil {
-					return nil, nil, errors.New("ref: LZMA chunk without model")
+					// illegal sequence requested by the caller (chunk
+					// discipline tests): encode with some model
+					m = newModel(sp.Props)
 				}
 				if sp.Kind == CkLR {
 					m.reset()
